@@ -298,7 +298,7 @@ func (w *World) browserLogin(onlyStart bool) string {
 	rec := httptest.NewRecorder()
 	w.StartH.ServeHTTP(rec, httptest.NewRequest("GET", "https://rp.example/login", nil))
 	loc, err := url.Parse(rec.Header().Get("Location"))
-	if rec.Code != http.StatusFound || err != nil {
+	if rec.Code < 300 || rec.Code >= 400 || err != nil {
 		return fmt.Sprintf("refused:start %d", rec.Code)
 	}
 	q := loc.Query()
